@@ -326,6 +326,12 @@ impl Module {
                     let decl = &mut module.global_registry[id.0 as usize];
                     let set = decl.lang_slot.set.unwrap_or(default_set);
 
+                    // Only extern variables are bound from outside the shader
+                    // Static and groupshared variables live in the shader even if they have an object type
+                    if decl.storage_class != GlobalStorage::Extern {
+                        return;
+                    }
+
                     // If static samplers are implemented purely in shader source then do not give them slots
                     if decl.static_sampler.is_some() && !params.static_samplers_have_slots {
                         return;
